@@ -526,6 +526,12 @@ def refine_batch(ctx, n, salt=31, force=None, name="trace-refinement", pid=None)
         except Exception as ex:
             import traceback
 
+            from .common import is_env_crash
+
+            if is_env_crash(ex):
+                sl.skipped += 1
+                sl.count("skipped:third-party-library-raised:" + type(ex).__name__)
+                continue
             sl.disagreements.append({"spec": spec, "impl": f"run crashed: {type(ex).__name__}: {ex}", "model": "", "tb": traceback.format_exc()[-800:]})
             continue
         metas.append((spec, run, len(all_lines), len(lines), expect, kinds))
